@@ -87,19 +87,25 @@ func (h *harness) blockTxAll() {
 	h.blockTxImage(chainSpec{NoHeight: true}, "empty-db")
 	// old entries above the chain height (the height key lags behind the stored blocks): the
 	// migration must return (an error or completion), not spin
-	{
-		c := chainSpec{Seed: 19, Counts: repeatInt(1, 15), Layout: strings.Repeat("o", 15), Corrupt: []string{"set-height:9"}}
+	// two heights: 9 (the first entry above it, block 10, starts an aligned range: 459a03c) and 12 (blocks 13, 14 lie
+	// above the height but their aligned range start 10 does not: 51a5cef)
+	for _, hgt := range []int{9, 12} {
+		c := chainSpec{Seed: 19, Counts: repeatInt(1, 15), Layout: strings.Repeat("o", 15), Corrupt: []string{fmt.Sprintf("set-height:%d", hgt)}}
 		if d, err := c.build(); err != nil {
 			h.res.Fatalf("fixture does not build: %v", err)
 		} else {
 			o := runMigrator(blocktransactions.Migrator{}, nil, d, btPlan{MaxSecs: 4}, false, 6*time.Second, false)
-			h.res.Case("entries-above-height", true)
+			h.res.Case(fmt.Sprintf("entries-above-height|%d", hgt), true)
 			h.res.Hit("bt-entries-above-height:" + o.ret)
 			if o.ret == "hang" {
-				h.res.Violate(lib.Violation{Sig: "blocktx-busy-loops-on-old-entries-above-chain-height",
-					What: "old per-transaction entries exist for blocks above the stored chain height: getFirstBlockToMigrate returns a block above the height, " +
-						"the pass emits nothing, reports done without error, and the loop of Migrate repeats forever (4 s without returning, the store being read all the time)",
-					Replay: btReplay{c, "build spec (15 blocks stored, chain height key = 9), run Migrate with a deadline", 0}})
+				sig := "blocktx-busy-loops-on-old-entries-above-chain-height"
+				if hgt%10 != 9 {
+					sig += "-inside-an-aligned-range"
+				}
+				h.res.Violate(lib.Violation{Sig: sig,
+					What: "old per-transaction entries exist for blocks above the stored chain height: no pass can remove them (a pass stops at the height), " +
+						"it emits nothing, reports done without error, and the loop of Migrate repeats forever (4 s without returning, the store being read all the time)",
+					Replay: btReplay{c, fmt.Sprintf("build spec (15 blocks stored, chain height key = %d), run Migrate with a deadline", hgt), 0}})
 			}
 		}
 	}
